@@ -157,13 +157,14 @@ func UnixFSDirectory(lsys linking.LinkSystem, targetSize int, opts ...Option) (D
 				if targetSize-curSize <= 1024 { // don't make tiny directories
 					continue
 				}
-				so := append(opts, WithDirname(o.dirname+"/"+name), shardThisDir(rndInt(o.randReader, 6) == 0))
+				// name already is the full path of the child (parent path + "/" + name)
+				so := append(opts, WithDirname(name), shardThisDir(rndInt(o.randReader, 6) == 0))
 				child, err := UnixFSDirectory(lsys, targetSize-curSize, so...)
 				if err != nil {
 					return nil, err
 				}
-				children = append(children, child)
 				curSize += int(child.TSize)
+				return &child, nil
 			default: // 4 in 6 chance of making a new file
 				var size int
 				for size == 0 { // don't make empty files
@@ -180,8 +181,7 @@ func UnixFSDirectory(lsys linking.LinkSystem, targetSize int, opts ...Option) (D
 				if err != nil {
 					return nil, err
 				}
-				var name string
-				entry.Path = o.dirname + "/" + name
+				entry.Path = name
 				curSize += size
 				return &entry, nil
 			}
